@@ -465,6 +465,7 @@ def check(pid, tier, seed):
     cov["rule"] = cfg.get("rule", "")
     cov["traces_validated_against_impl"] = len(cases) - len(mism)
     cov["model_impl_disagreements"] = len(mism)
+    cov["disagreeing_case_ids"] = [c.id for c in mism][:20]
     cov["oracle_failures"] = len(failing)
     cov["oracle_failures_of_other_properties_seen"] = foreign
     cov["oracle_failures_in_known_classes"] = sum(len(v) for v in kf_hits.values())
